@@ -36,23 +36,30 @@ def model_run(forms, strategy, machine=None, with_out=False, libs=None, stdlib=T
     res = []
     for f in forms:
         m.trace = []; m.out = []
+        s0 = m.steps
         try:
             v = m.eval_toplevel(f)
-            res.append(("ok", freeze(v), [freeze(t) for t in m.trace], "".join(m.out)))
+            res.append(("ok", freeze(v), [freeze(t) for t in m.trace], "".join(m.out), m.steps - s0))
         except SErr as e:
-            res.append(("err", e.kind, list(m.trace), "".join(m.out)))
+            res.append(("err", e.kind, list(m.trace), "".join(m.out), m.steps - s0))
         except RecursionError:
             raise OutOfModel("python recursion")
     return res
 
 
-def step_matches(exp, step, check_alias=False, check_out=False):
+def step_matches(exp, step, check_alias=False, check_out=False, fuel=None):
     """None if the driver's step record agrees with the model's expectation, else a short reason"""
     kind, val = core.outcome(step)
-    ek, ev, etrace, eout = exp
+    ek, ev, etrace, eout = exp[:4]
     if kind in ("missing", "abort"):
         return "no record"
     if kind == "fuel":
+        # the interpreter used up its budget of procedure applications.  That is a disagreement when the reference finishes the form in
+        # far fewer evaluation steps (every application is at least one of them; library procedures written in Scheme cost a bounded
+        # factor more), and undecided otherwise
+        need = exp[4] if len(exp) > 4 else None
+        if fuel and need is not None and need * 100 + 1000 < fuel:
+            return "did not terminate within %d procedure applications (the reference needs %d evaluation steps for this form)" % (fuel, need)
         return "fuel"
     if kind == "panic":
         return "panic"
@@ -83,7 +90,7 @@ def safe_text(v):
         return repr(v)
 
 
-def compare_history(forms, steps, check_alias=False, check_out=False, strategies=None, libs=None, stdlib=True):
+def compare_history(forms, steps, check_alias=False, check_out=False, strategies=None, libs=None, stdlib=True, fuel=200000):
     """returns ('ok', strategy) | ('oom', None) | ('fuel', None) | ('mismatch', detail)"""
     first = None
     for st in (strategies or all_strategies()):
@@ -93,7 +100,7 @@ def compare_history(forms, steps, check_alias=False, check_out=False, strategies
             return ("oom", None)
         bad = None
         for i, (e, s) in enumerate(zip(exp, steps)):
-            why = step_matches(e, s, check_alias, check_out)
+            why = step_matches(e, s, check_alias, check_out, fuel)
             if why == "fuel":
                 return ("fuel", None)
             if why is not None:
